@@ -3,7 +3,7 @@ import core
 import alph_common as A
 
 def run(ctx):
-    core.run_extract(ctx, A.EXTRACTORS)
+    core.run_extract(ctx, A.EXTRACTORS_C08)
     core.coq_prove(ctx, "C08")
     if ctx.tier == "thorough":
         core.coq_thorough_audit(ctx, "C08")
